@@ -324,7 +324,7 @@ func runC16(c *Ctx) {
 	}
 	c.Sample(map[string]interface{}{"strings": strs[:20], "alphabet": caseAlphabet})
 	c.Meta(map[string]interface{}{
-		"rule": "(a) every Unicode code point (1 112 064 scalar values) as a one-rune string and every string of length <= max over a case-folding-hostile alphabet through the real Constraints.Transform for upper, lower (and both): equals the documented mapping and is idempotent; (b) every such string stored in fields carrying the constraints at depth 0, behind a nil / non-nil pointer and in an embedded struct (indexed, unindexed, unique; three index configurations): read-back canonical at every path, searches with case variants and neighbours agree with comparison of canonical forms for =, !=, <, >=, uniqueness decided on canonical values. Non-trivial = strings changed by at least one of the mappings.",
+		"rule":    "(a) every Unicode code point (1 112 064 scalar values) as a one-rune string and every string of length <= max over a case-folding-hostile alphabet through the real Constraints.Transform for upper, lower (and both): equals the documented mapping and is idempotent; (b) every such string stored in fields carrying the constraints at depth 0, behind a nil / non-nil pointer and in an embedded struct (indexed, unindexed, unique; three index configurations): read-back canonical at every path, searches with case variants and neighbours agree with comparison of canonical forms for =, !=, <, >=, uniqueness decided on canonical values. Non-trivial = strings changed by at least one of the mappings.",
 		"max_len": maxLen, "strings": len(strs), "configs": cfgs,
 		"assumptions": []string{"valid UTF-8 only"},
 	})
